@@ -18,9 +18,21 @@ CHECKS = {
                 "predicted by a reader model; File::create failure is proved in the model but not exercised; gzip via flate2 is exercised only.",
         "technique": "Coq proof over a translator-regenerated table + differential correspondence",
     },
+    "C08": {
+        "text": "Theorems for all finite histories (induction, no length bound): any history of valid add_atom calls at the Model, Chain or Residue entry "
+                "point yields exactly the nested first-appearance partition of the normalised operations (C08_model_history etc.); the partition has one "
+                "child per distinct key, contains every key used, appends a child exactly when the key is new and never reorders (C08_first_insertion_order), "
+                "and each child holds the atoms added under its key in insertion order; stored identifiers are fixed points of the normalisation. "
+                "The hand-written model of the three add_atom functions is tied to the crate by exhaustive short and random long histories whose full "
+                "snapshots are compared.",
+        "design_ref": "DESIGN.md section 6 C08",
+        "note": "Trusted: Coq kernel, extraction, harness. The Gallina model of add_atom (search order, normalisation, panics) is hand-written and tied "
+                "by sampling only; identifiers are ASCII; Vec/str std behaviour is modelled.",
+        "technique": "Coq proof (induction over call histories, refinement to a first-appearance partition) + differential correspondence",
+    },
 }
 
 NOT_APPLICABLE = [
     {"property_id": p, "reason": PENDING}
-    for p in ["C01", "C02", "C03", "C04", "C05", "C06", "C08", "C09", "C10", "C11", "C12", "C13", "C14", "C15", "C16", "C17", "C18"]
+    for p in ["C01", "C02", "C03", "C04", "C05", "C06", "C09", "C10", "C11", "C12", "C13", "C14", "C15", "C16", "C17", "C18"]
 ]
